@@ -757,9 +757,20 @@ pub fn rich_file(c: &mut Choice, o: &RichOpts) -> Rich {
             for _ in 0..n {
                 Rel { r_offset: c.val(64), r_info: c.val(64) }.write(&mut w);
             }
+            // (a minority: a trailing partial entry; a recorded entry size of 0, twice the size or anything - the
+            // relocation accessors go by the ABI size)
+            if c.u8() >= 220 {
+                let k = c.below(rel_size(enc) as u64) as usize;
+                w.buf.extend(std::iter::repeat(0xEE).take(k));
+            }
             let i = f.add_sec(b".rel.dyn", SHT_REL, w.buf);
             kinds.push(Kind::Rel);
-            f.secs[i].hdr.sh_entsize = rel_size(enc) as u64;
+            f.secs[i].hdr.sh_entsize = match c.u8() {
+                0..=199 => rel_size(enc) as u64,
+                200..=229 => 0,
+                230..=244 => 2 * rel_size(enc) as u64,
+                _ => c.val(16),
+            };
             f.secs[i].align = word;
         }
         if has(8) {
@@ -768,9 +779,18 @@ pub fn rich_file(c: &mut Choice, o: &RichOpts) -> Rich {
             for _ in 0..n {
                 Rela { r_offset: c.val(64), r_info: c.val(64), r_addend: c.val(64) as i64 }.write(&mut w);
             }
+            if c.u8() >= 220 {
+                let k = c.below(rela_size(enc) as u64) as usize;
+                w.buf.extend(std::iter::repeat(0xEE).take(k));
+            }
             let i = f.add_sec(b".rela.plt", SHT_RELA, w.buf);
             kinds.push(Kind::Rela);
-            f.secs[i].hdr.sh_entsize = rela_size(enc) as u64;
+            f.secs[i].hdr.sh_entsize = match c.u8() {
+                0..=199 => rela_size(enc) as u64,
+                200..=229 => 0,
+                230..=244 => 2 * rela_size(enc) as u64,
+                _ => c.val(16),
+            };
             f.secs[i].align = word;
         }
         // --- dynamic
@@ -1033,6 +1053,27 @@ pub fn rich_file(c: &mut Choice, o: &RichOpts) -> Rich {
             f.overrides.push(Override { target: Target::Shdr(0), field: "sh_offset", value: t.sh_offset });
             f.overrides.push(Override { target: Target::Shdr(0), field: "sh_size", value: t.sh_size });
             n_over += 5;
+        } else if (0x5A..=0x65).contains(&k) && first.ehdr.e_shoff != 0 && first.ehdr.e_phoff != 0 {
+            // the two header tables designated at ONE offset (a file whose writer confused them): either offset wins;
+            // a third of these keep their counts, a third get counts under which both tables cover exactly the same
+            // bytes, a third are both empty
+            let v = (k - 0x5A) % 3;
+            let at = if k < 0x60 { first.ehdr.e_shoff } else { first.ehdr.e_phoff };
+            f.overrides.push(Override { target: Target::Ehdr, field: "e_phoff", value: at });
+            f.overrides.push(Override { target: Target::Ehdr, field: "e_shoff", value: at });
+            n_over += 2;
+            let (se, pe) = (first.ehdr.e_shentsize as u64, first.ehdr.e_phentsize as u64);
+            if v == 1 && se != 0 && pe != 0 {
+                let unit = if se == 64 { 7 } else { 4 };
+                let sn = ((first.shdrs.len() as u64) / unit).max(1) * unit;
+                f.overrides.push(Override { target: Target::Ehdr, field: "e_shnum", value: sn });
+                f.overrides.push(Override { target: Target::Ehdr, field: "e_phnum", value: sn * se / pe });
+                n_over += 2;
+            } else if v == 2 {
+                f.overrides.push(Override { target: Target::Ehdr, field: "e_shnum", value: 0 });
+                f.overrides.push(Override { target: Target::Ehdr, field: "e_phnum", value: 0 });
+                n_over += 2;
+            }
         } else if k == 0x54 {
             f.overrides.push(Override { target: Target::Ehdr, field: "e_phnum", value: 0xffff });
             f.overrides.push(Override { target: Target::Ehdr, field: "e_shoff", value: 0 });
